@@ -200,6 +200,17 @@ PROPS = {
         trusted_base=[SDK_TRUST, "relayer scores are modelled in exact LegacyDec arithmetic (banker's rounding, truncating division), validated by correspondence"],
         assumptions=[],
     ),
+    "C12": dict(
+        lean_modules=["PalomaModel.Props.C12"],
+        harness_test="TestC12",
+        n_quick=300, n_thorough=3000, thorough_seeds=6, timeout_quick=900,
+        spec_ops=[],
+        rule="mock world (real valset keeper + AppModule Begin/EndBlock + msg server + gov handler over a fake staking/slashing view) with ARBITRARY address bytes (0x2c anywhere, all-0x2c, prefixes of one another, 'hex:'-looking, 1-32 bytes) and the full app with operator keys filtered "
+             "so that about half of the addresses contain 0x2c; histories of keep-alives (good / old / invalid versions), block advancement over sweep heights incl. real 2000-block expiries, jail / unjail / bond / unbond, stake distributions with whales and exact-quarter stakes, "
+             "minimum-version changes through real governance; distinct = distinct op text; non-trivial = at least one sweep ran",
+        trusted_base=[SDK_TRUST, "the float64 share test equals 4*p > total for totals below 2^53 (powers are kept below 2^50, exact boundary included)", "semver.Compare is modelled by an order-preserving key, validated against the real function"],
+        assumptions=[],
+    ),
 }
 
 LEVEL_TEXT = ("Lean 4 theorems (all inputs / histories / fault points, no bounds) about an executable model of the code; the model is tied to the Go code on "
